@@ -586,6 +586,11 @@ CORPUS: list[tuple[str, bytes]] = [
     ("yaml-null-key", b"openapi: 3.0.0\ninfo: {title: x, version: '1'}\npaths: {~: {}}\n"),
     ("yaml-binary", b"openapi: 3.0.0\ninfo: {title: !!binary aGVsbG8=, version: '1'}\npaths: {}\n"),
     ("yaml-set", b"openapi: 3.0.0\ninfo: {title: x, version: '1'}\npaths: !!set {a, b}\n"),
+    ("yaml-invalid-native-date", b"openapi: 3.0.0\ninfo: {title: x, version: '1'}\npaths: {}\nx-d: 2024-01-80\n"),
+    ("yaml-invalid-native-timestamp", b"openapi: 3.0.0\ninfo: {title: x, version: '1'}\npaths: {}\nx-t: 2024-13-01T00:00:00Z\n"),
+    ("yaml-bad-binary", b"a: !!binary '???'\n"),
+    ("yaml-bad-int-tag", b"a: !!int abc\n"),
+    ("yaml-bad-float-tag", b"a: !!float x.y\n"),
     ("yaml-mapping-key-is-mapping", b"{.: {t: {{[{}]}}}}"),
     ("yaml-complex-key", b"? {a: 1}\n: 2\nopenapi: 3.0.0\n"),
     ("yaml-seq-key", b"? [a, b]\n: 1\n"),
